@@ -27,6 +27,16 @@ PROPS = {
         trusted=['overlay accessor VerifSetClock (sets the unexported nowFunc); log output captured via log.SetOutput'],
         assumptions=['non-decreasing clock', 'the zero time.Time of a fresh limiter is further than any interval before the first arrival'],
     ),
+    'C05': dict(
+        lean=['Props.C05'],
+        streams=['throttle'],
+        rule='request/clock schedules in five phase styles (burst at one instant, camera-rate, churn at the tick boundary +-1 ns, long idles, '
+             'one-clip refills) with scripted base-recorder failures in 35% of cases; the window monitor checks all O(n^2) windows of each case; '
+             'non-trivial = at least one throttled event; distinct by op text',
+        trusted=['juju/ratelimit (quantum, fillInterval) for the configured rate measured on a reference bucket by reflection; its 1% rate contract asserted per case',
+                 'upstream obeys the recorder protocol (enforced identically by harness and model)'],
+        assumptions=['non-decreasing clock', 'bucket-size*fps >= 1 and (min+preview)*fps >= 1 (the library panics on capacity 0; rate 0 is undefined)'],
+    ),
 }
 
 NOT_APPLICABLE = {}
@@ -43,6 +53,15 @@ MANIFEST_TEXT = {
         note=_COMMON_NOTE + 'frames are identified by a tag in two pixels; capacity 1 "recent" is stated as what the code does.',
         technique='Lean 4 refinement proof (ghost invariant, induction over op list) + differential correspondence',
         design_ref='DESIGN.md 5/C19'),
+    'C05': dict(
+        text='Theorem for every capacity/quantum >= 1, every minimum length, every upstream request list with a non-decreasing clock and every base-failure '
+             'pattern: in every window of requests the frames forwarded to storage are at most cap + 1 + q*(tick_j - tick_i) (potential argument over the '
+             'tick-level model of juju/ratelimit incl. its stale-latestTick early return; the +1 is shown attained). The model is compared call-for-call '
+             'with the real ThrottledRecorder over the real bucket under an injected clock; the formulas cap = bucket-size*fps and rate = (min+preview)*fps/min-refill '
+             'are applied by the harness and must reproduce the real behaviour.',
+        note=_COMMON_NOTE + "the library's float loop choosing (quantum, fillInterval) is measured, not modelled; main.go wiring is covered by regenerated facts / the e2e stream.",
+        technique='Lean 4 proof (potential function, induction over the request list) + differential correspondence',
+        design_ref='DESIGN.md 5/C05'),
     'C20': dict(
         text='Theorems for every history of (message, time) arrivals and every interval: a message is suppressed iff it equals the last '
              'printed message and arrives less than the interval after that print; suppressed repeats leave the state unchanged; distinct '
